@@ -345,9 +345,15 @@ func convertFFIParamsToABIParameters(ctx context.Context, params fftypes.FFIPara
 		}
 
 		var s *Schema
-		// Errors here are unchecked because they cannot be hit if the above JSON Schema validation passed
-		_ = json.Unmarshal(param.Schema.Bytes(), &s)
-		abiParameter, _ := processField(ctx, param.Name, s)
+		// The JSON Schema validation above does not constrain everything used below (items, member positions),
+		// so errors here are reported rather than ignored
+		if err := json.Unmarshal(param.Schema.Bytes(), &s); err != nil {
+			return nil, i18n.WrapError(ctx, err, signermsgs.MsgInvalidFFIDetailsSchema, param.Name)
+		}
+		abiParameter, err := processField(ctx, param.Name, s)
+		if err != nil {
+			return nil, err
+		}
 
 		tc, err := abiParameter.TypeComponentTreeCtx(ctx)
 		if err != nil {
@@ -403,7 +409,7 @@ func inputTypeValidForTypeComponent(ctx context.Context, inputSchema *Schema, tc
 			return nil
 		}
 	}
-	return i18n.NewError(ctx, signermsgs.MsgFFITypeMismatch, inputTypeString, tc.ElementaryType().String())
+	return i18n.NewError(ctx, signermsgs.MsgFFITypeMismatch, inputTypeString, tc.String())
 }
 
 func buildABIParameterArrayForObject(ctx context.Context, properties map[string]*Schema) (abi.ParameterArray, error) {
@@ -413,13 +419,18 @@ func buildABIParameterArrayForObject(ctx context.Context, properties map[string]
 		if err != nil {
 			return nil, err
 		}
-		parameters[*propertySchema.Details.Index] = parameter
+		// Each member must carry its own, in range, position - otherwise the tuple cannot be rebuilt
+		index := propertySchema.Details.Index
+		if index == nil || *index < 0 || *index >= len(parameters) || parameters[*index] != nil {
+			return nil, i18n.NewError(ctx, signermsgs.MsgInvalidFFIDetailsSchema, propertyName)
+		}
+		parameters[*index] = parameter
 	}
 	return parameters, nil
 }
 
 func processField(ctx context.Context, name string, schema *Schema) (parameter *abi.Parameter, err error) {
-	if schema.Details == nil {
+	if schema == nil || schema.Details == nil {
 		return nil, i18n.NewError(ctx, signermsgs.MsgInvalidFFIDetailsSchema, name)
 	}
 	parameter = &abi.Parameter{
@@ -432,7 +443,15 @@ func processField(ctx context.Context, name string, schema *Schema) (parameter *
 	case jsonObjectType:
 		parameter.Components, err = buildABIParameterArrayForObject(ctx, schema.Properties)
 	case jsonArrayType:
-		parameter.Components, err = buildABIParameterArrayForObject(ctx, schema.Items.Properties)
+		// The components of an array of tuples (of any dimension) are described on the innermost items
+		items := schema.Items
+		for items != nil && items.Type == jsonArrayType {
+			items = items.Items
+		}
+		if items == nil {
+			return nil, i18n.NewError(ctx, signermsgs.MsgInvalidFFIDetailsSchema, name)
+		}
+		parameter.Components, err = buildABIParameterArrayForObject(ctx, items.Properties)
 	}
 	if err != nil {
 		return nil, i18n.WrapError(ctx, err, signermsgs.MsgInvalidFFIDetailsSchema, name)
@@ -445,7 +464,7 @@ func ABIArgumentToTypeString(typeName string, components abi.ParameterArray) str
 		suffix := typeName[5:]
 		children := make([]string, len(components))
 		for i, component := range components {
-			children[i] = ABIArgumentToTypeString(component.Type, nil)
+			children[i] = ABIArgumentToTypeString(component.Type, component.Components)
 		}
 		return "(" + strings.Join(children, ",") + ")" + suffix
 	}
